@@ -434,6 +434,47 @@ def _native_images(tier="quick", seed=0):
     dup = {d_: n_ for d_, n_ in image_digests(prs_r).items() if len(n_) > 1}
     if dup:
         bad = bad or ("dedup", "re-opened deck, one more movie and embedded object: identical image bytes stored as several parts %s" % sorted(dup.values())[:2])
+    # decks written by other producers (the corpus): every stored image is found again when the same bytes are added -- whatever
+    # spelling of the image content type the producer declared (image/jpg for JPEG, ...)
+    import glob
+    import os
+
+    repo = os.environ.get("PPTX_REPO", "/repo")
+    files = sorted(glob.glob(os.path.join(repo, "features", "steps", "test_files", "*.pptx")))
+    if tier == "quick":
+        files = [f for f in files if os.path.basename(f) in ("test-image-jpg-mime.pptx", "shp-picture.pptx", "shp-common-props.pptx", "test.pptx", "ph-inserted-ph.pptx")] or files[:6]
+    for f in files:
+        try:
+            prs_c = Presentation(f)
+        except Exception:
+            continue
+        media = {}
+        from pptx.opc.constants import RELATIONSHIP_TYPE as _RT
+
+        for rel_ in prs_c.part.package.iter_rels():  # an image is what an image relationship points at (a thumbnail, say, is not)
+            if rel_.is_external or rel_.reltype != _RT.IMAGE:
+                continue
+            part_ = rel_.target_part
+            if str(part_.content_type).startswith("image/"):
+                try:
+                    fmt_ = PIL.open(io.BytesIO(part_.blob)).format
+                except Exception:
+                    continue
+                if fmt_ in ("PNG", "JPEG", "GIF", "BMP", "TIFF"):
+                    media[str(part_.partname)] = part_.blob
+        if not media or not len(prs_c.slide_layouts):
+            continue
+        sl_c = prs_c.slides.add_slide(prs_c.slide_layouts[0])
+        for name_, blob_ in sorted(media.items())[:4]:
+            evals += 1
+            try:
+                sl_c.shapes.add_picture(io.BytesIO(blob_), Emu(0), Emu(0))
+            except Exception as e:
+                bad = bad or ("dedup", "%s: adding the bytes of its own %s again raised %r" % (os.path.basename(f), name_, e))
+                continue
+            twins = sorted({str(r_.target_part.partname) for r_ in prs_c.part.package.iter_rels() if not r_.is_external and r_.reltype == _RT.IMAGE and r_.target_part.blob == blob_})
+            if len(twins) != 1:
+                bad = bad or ("dedup", "%s: the bytes of %s added again are stored a second time: %s" % (os.path.basename(f), name_, twins))
     names = [str(p.partname) for p in set(seen.values())]
     if len(names) != len(set(names)):
         bad = bad or ("names", "two image parts share a part name")
@@ -517,3 +558,70 @@ def _fill_cropping(c):
     c.ensures("post.fraction_range", z3.And(l >= 0, l < half, t >= 0, t < half))
     # visible part: width iw*(1-l-r), height ih*(1-t-b); its aspect ratio equals the view's (cross-multiplied)
     c.ensures("post.aspect_preserved", to_real(iw) * (1 - l - r) * to_real(vh) == to_real(ih) * (1 - t - b) * to_real(vw))
+
+
+# ---------------------------------------------------------------------------------------------------------
+# images the library supplies itself go through the same de-duplicating entry point
+
+
+def _replay_poster(model, rec):
+    import hashlib
+    import io
+
+    from pptx import Presentation
+    from pptx.parts.image import ImagePart
+    from pptx.util import Emu
+
+    prs = Presentation()
+    s1 = prs.slides.add_slide(prs.slide_layouts[6])
+    s2 = prs.slides.add_slide(prs.slide_layouts[6])
+    for k, sl in enumerate((s1, s1, s2)):
+        sl.shapes.add_movie(io.BytesIO(b"\x00\x00\x00\x18ftypmp42 %d" % k), Emu(0), Emu(0), Emu(10), Emu(10), mime_type="video/mp4")
+    by = {}
+    for p in prs.part.package.iter_parts():
+        if isinstance(p, ImagePart):
+            by.setdefault(hashlib.sha1(p.blob).hexdigest(), []).append(str(p.partname))
+    dup = [v for v in by.values() if len(v) > 1]
+    if dup:
+        return {"confirmed": True, "witness_class": "image-dedup", "detail": "three movies without poster frame: the speaker image is stored as %s" % dup[0]}
+    return {"confirmed": False, "detail": "the speaker image of three movies is one part"}
+
+
+def _make_poster(given):
+    @contract("C15", "C15.shapes.shapetree._MoviePicElementCreator._poster_frame_rId[%s]" % ("poster frame given" if given else "no poster frame"), replay=_replay_poster)
+    def body(c):
+        """the poster frame -- the caller's, or the built-in speaker image when none is given -- is related through
+        SlidePart.get_or_add_image_part (the de-duplicating entry point, contract above), once, and the relationship id it returns is used."""
+        import io
+
+        from pptx.media import SPEAKER_IMAGE_BYTES
+        from pptx.shapes.shapetree import _MoviePicElementCreator
+
+        calls = []
+        RID = SStr([Atom("rId", zs=z3.String("rId"))])
+
+        def goa(it, a, k):
+            calls.append(a[0] if a else None)
+            return (SObj(None, "image_part", __external__=True), RID)
+
+        slide_part = SObj(None, "slide_part", get_or_add_image_part=GhostFn(goa, "SlidePart.get_or_add_image_part"), __external__=True)
+        poster = SObj(None, "poster_file", __external__=True) if given else None
+        cr = SObj(_MoviePicElementCreator, "creator", _slide_part=slide_part, _poster_frame_file=poster)
+        fn = _MoviePicElementCreator.__dict__["_poster_frame_rId"]
+        out = c.run(getattr(fn, "_fget", None) or fn.fget, cr)
+        if out.raised:
+            c.fails("never_raises", "raised %s" % out.exc)
+            return
+        c.ensures("post.id_from_the_deduplicating_entry_point", out.value is RID)
+        c.ensures("post.related_once", len(calls) == 1)
+        if given:
+            c.ensures("post.the_callers_file", len(calls) == 1 and calls[0] is poster)
+        else:
+            arg = calls[0] if calls else None
+            c.ensures("post.the_builtin_image", isinstance(arg, io.BytesIO) and arg.getvalue() == SPEAKER_IMAGE_BYTES)
+
+    return body
+
+
+_make_poster(True)
+_make_poster(False)
